@@ -160,6 +160,9 @@ func stageFormat(raw json.RawMessage) Result {
 	var c struct {
 		Variants []any `json:"variants"`
 		HasFuncs bool  `json:"hasFuncs"`
+		// MayReject: the text is not known to be a program; nothing is claimed when the parser rejects it, but
+		// what the parser accepts the formatter must leave as it is (C06 quantifies over accepted programs)
+		MayReject bool `json:"mayReject"`
 	}
 	if err := json.Unmarshal(raw, &c); err != nil {
 		return Result{OK: false, Diff: "harness: " + err.Error()}
@@ -173,6 +176,10 @@ func stageFormat(raw json.RawMessage) Result {
 		}
 		tag := fmt.Sprintf("variant %d: ", vi+1)
 		prog, err := parser.Parse(src, evaluator.BuiltinDecls())
+		if err != nil && c.MayReject {
+			obs["verdict"] = "rejected"
+			return Result{OK: true, Obs: obs}
+		}
 		if err != nil {
 			obs["src"] = src
 			return Result{OK: false, Obs: obs, Diff: tag + "specification says this text is a valid program, parser rejects it: " + firstLine(err.Error())}
